@@ -359,7 +359,30 @@ def _cv(v):
     return getattr(np, _INT[0])(v)
 
 
+_DERIVE = [None]  # (parent seq, parent start, parent feats, op1): mk_x hands out op1(parent) (second audit, E)
+
+
+class _DerivedMismatch(Exception):
+    pass
+
+
+def apply_op1(x, op):
+    if op[0] == "slice":
+        return x[op[1]:op[2]]
+    if op[0] == "rc":
+        return x.reverse_complement() if op[1] is None else x.reverse_complement(sequence_start=op[1])
+    if op[0] == "copy":
+        return x.copy()
+    raise ValueError(op)
+
+
 def mk_x(seq, start, feats):
+    if _DERIVE[0] is not None:
+        pseq, pstart, pfeats, op = _DERIVE[0]
+        y = apply_op1(_bt()["bs"].AnnotatedSequence(mk_annot(pfeats), mk_seq(pseq), _cv(pstart)), op)
+        if obs_x(y) != (seq, start, m_canon(feats)):
+            raise _DerivedMismatch()
+        return y
     return _bt()["bs"].AnnotatedSequence(mk_annot(feats), mk_seq(seq), _cv(start))
 
 
@@ -1198,6 +1221,11 @@ def shards(tier, seed):
     for what in ("width8", "width98", "features", "locations"):
         out.append({"kind": "dim_many", "what": what})
     out.append({"kind": "dim_huge"})
+    # second dimension audit
+    out.append({"kind": "dim_result"})
+    out.append({"kind": "dim_values"})
+    for start in (1, 5):
+        out.append({"kind": "dim_derived", "start": start})
     # cheap single-location shards first (they finish first and supply the minimal witnesses), then the
     # heavy products, widest first
     light = {"aseq1": 0, "findex": 1, "revcomp1": 2, "container": 3, "values": 3, "annot1": 3}
@@ -1315,6 +1343,12 @@ def run_shard(shard, ctx):
         run_dim_many(shard, ctx, p)
     elif kind == "dim_huge":
         run_dim_huge(ctx)
+    elif kind == "dim_result":
+        run_dim_result(ctx, p)
+    elif kind == "dim_values":
+        run_dim_values(ctx, p)
+    elif kind == "dim_derived":
+        run_dim_derived(shard, ctx, p)
     elif kind == "container":
         run_container(ctx, p)
     elif kind == "values":
@@ -1662,9 +1696,10 @@ def check_annotation_history(ctx, seq, start, fl):
     an = bs.Annotation()
     x = bs.AnnotatedSequence(an, mk_seq(seq), start)
     cur = []
-    slices = [(start, start + n), (start + 1, None), (None, start + n - 1), (None, None)]
 
     def agree(step):
+        n = len(seq)  # the sequence is replaced by longer / shorter content below
+        slices = [(start, start + n), (start + 1, None), (None, start + n - 1), (None, None)]
         for sl in slices:
             A = sl[0] if sl[0] is not None else start
             B = sl[1] if sl[1] is not None else start + n
@@ -1709,6 +1744,23 @@ def check_annotation_history(ctx, seq, start, fl):
     case["seq_after"] = seq
     if not agree("int_assignment"):
         return True
+    # second audit, D: content of another size in the same objects (longer, then shorter than the original),
+    # after the slices / copies / reverse complements above had every chance to remember a length
+    for step, newseq in (("longer_sequence", seq + set_value(seq, 2)), ("shorter_sequence", seq[1:len(seq) - 1])):
+        x.copy()
+        if _FLAV[0] is None:
+            x.reverse_complement()
+        x.sequence.code = mk_seq(newseq).code.copy()
+        seq = newseq
+        case["seq_" + step] = seq
+        if not agree(step):
+            return True
+        c = x.copy()
+        if obs_x(c) != (seq, start, m_canon(cur)) or not (c == x):
+            ctx.violation("AnnotatedSequence.copy|stale_or_wrong_after_edit|history:%s" % step,
+                          "copy after the sequence content was replaced differs from the object",
+                          dict(case, step=step), showx((seq, start, m_canon(cur))), showx(obs_x(c)))
+            return True
     # reverse complement twice on the same object with two start values
     if _FLAV[0] is None:
         for r in (start + 3, 1, start + 3):
@@ -2028,11 +2080,269 @@ def run_dim_huge(ctx):
 
 
 # ---------------------------------------------------------------------------
+# second dimension audit: result identity (A), values by VALUE at every seed (B, C), derived inputs (E)
+# ---------------------------------------------------------------------------
+def _edit_annotation(an):
+    """Re-binding edit: afterwards the annotation holds only a marker feature."""
+    an.add_feature(mk_feature("zz", [[7, 7, 0, 0]]))
+    for f in list(an):
+        if f.key != "zz":
+            an.del_feature(f)
+
+
+def check_result_identity(ctx, seq, start, feats):
+    """A: slices (also the full-range / nothing-to-clip ones), x[feature] and the reverse complement are NEW
+    objects: they are not the operand or one of its parts, and re-binding edits of the result (features
+    added / deleted, a new code array assigned to the result's sequence) leave the operand equal to its model.
+    Whether code BUFFERS are shared stays unspecified (dim_alias counts it)."""
+    import numpy as np
+
+    bs = _bt()["bs"]
+    n = len(seq)
+    orig = (seq, start, m_canon(feats))
+    base = {"kind": "result_identity", "seq": seq, "start": start, "feats": feats}
+
+    def judge(x, res, what, cls, case):
+        """res: AnnotatedSequence / Annotation / Sequence produced from x."""
+        ctx.ev(1, 1)
+        ctx.count("accepted")
+        parts = [x, x.annotation, x.sequence]
+        if any(res is p for p in parts) or (hasattr(res, "annotation") and (res.annotation is x.annotation
+                                                                           or res.sequence is x.sequence)):
+            ctx.violation("%s|returns_operand|%s" % (what, cls), "the result is the operand itself (or holds one of its "
+                          "parts)", case, "new object", "operand")
+            return True
+        try:
+            if isinstance(res, bs.AnnotatedSequence):
+                _edit_annotation(res.annotation)
+                res.sequence.code = np.zeros(len(res.sequence) + 1, dtype=res.sequence.code.dtype)
+            elif isinstance(res, bs.Annotation):
+                _edit_annotation(res)
+            else:
+                res.code = np.zeros(len(res) + 1, dtype=res.code.dtype)
+        except Exception as e:  # noqa: BLE001
+            ctx.violation("%s|result_not_editable_%s|%s" % (what, type(e).__name__, cls), "editing the result raised", case,
+                          "editable result", type(e).__name__)
+            return True
+        got = obs_x(x)
+        ctx.outcome(("identity", what, cls, got))
+        if got != orig:
+            mode = "sequence" if got[0] != orig[0] else ("sequence_start" if got[1] != orig[1] else "annotation")
+            ctx.violation("%s|result_aliases_operand:%s|%s" % (what, mode, cls),
+                          "a re-binding edit of the result changed the operand", case, showx(orig), showx(got))
+            return True
+        return False
+
+    for sl in aseq_slices(n, start):
+        a, b = sl
+        if a is not None and a < start:
+            continue
+        A0 = a if a is not None else start
+        B0 = b if b is not None else start + n
+        full = A0 == start and B0 == start + n
+        cls = "slice" + slice_form(a, b) + ("+full_range" if full else "")
+        x = mk_x(seq, start, feats)
+        try:
+            y = x[a:b]
+        except Exception:  # noqa: BLE001  (empty slices may raise: EITHER)
+            continue
+        if judge(x, y, "AnnotatedSequence.__getitem__", cls, dict(base, sl=[a, b])):
+            return True
+        x = mk_x(seq, start, feats)
+        try:
+            sub = x.annotation[A0:B0] if (a is not None or b is not None) else x.annotation[:]
+        except Exception:  # noqa: BLE001
+            continue
+        if judge(x, sub, "Annotation.__getitem__", cls, dict(base, sl=[a, b], bare=True)):
+            return True
+    if _FLAV[0] is None:
+        for r in (None, start):
+            x = mk_x(seq, start, feats)
+            if judge(x, x.reverse_complement() if r is None else x.reverse_complement(sequence_start=r),
+                     "AnnotatedSequence.reverse_complement", "any", dict(base, rstart=r)):
+                return True
+    for key, locs in feats:
+        tl = [tuple(l) for l in locs]
+        if any(l[0] < start or l[1] >= start + n for l in tl) or m_feature_get(seq, start, tl)[0] != "accept":
+            continue
+        x = mk_x(seq, start, feats)
+        whole = len(tl) == 1 and tl[0][0] == start and tl[0][1] == start + n - 1
+        if judge(x, x[mk_feature(key, locs)], "AnnotatedSequence.__getitem__(Feature)",
+                 floc_class(tl) + ("+whole_sequence" if whole else ""), dict(base, index=[key, locs])):
+            return True
+    return False
+
+
+def run_dim_result(ctx, p):
+    for start in (1, 5):
+        for n in (1, 2, 3):
+            seq = seq_for(p["letters"], n)
+            check_result_identity(ctx, seq, start, [])
+            for l in locs_over(start - 1, start + n, [0, ML], (start, start + n - 1)):
+                check_result_identity(ctx, seq, start, [["a", [l]]])
+            feats = [["a", [[start, start + n - 1, 0, 0]]], ["b", [[start, start, 1, 0]]]]
+            check_result_identity(ctx, seq, start, feats)
+    ctx.sample({"kind": "result_identity", "seq": seq, "start": start, "feats": feats})
+
+
+ALL_LETTERS = "ACGTRYWSMKHBVDN"  # every symbol of the ambiguous nucleotide alphabet
+
+
+def run_dim_values(ctx, p):
+    """B + C: every value the anchored code treats by VALUE occurs at every seed: all 6 defect flags, all 15
+    pairs of flags and all six at once through slicing and reverse complement; every letter of the nucleotide
+    alphabets through complement (reverse complement, reverse-strand feature get / set)."""
+    flags = [BIT[nm] for nm in DEF_NAMES]
+    defects = [0] + flags + [a | b for a, b in itertools.combinations(flags, 2)] + [sum(flags)]
+    n = 2
+    seq = seq_for(p["letters"], n)
+    for start in (1, 5):
+        slices = aseq_slices(n, start)
+        for l in locs_over(start - 1, start + n, defects, (start, start + n - 1)):
+            feats = [["a", [l]]]
+            run_aseq_one(ctx, seq, start, feats, slices)
+            if l[0] >= 0 or start == 5:
+                check_revcomp(ctx, seq, start, feats, start + 3)
+    for l in locs_over(-1, 1, defects):
+        run_annot_one(ctx, [["a", [l]]], annot_slices(-1, 1))
+    # every letter
+    for seqv in (ALL_LETTERS, ALL_LETTERS[::-1], "ACGT", "TGCA"):
+        nn = len(seqv)
+        for start in (1, 5):
+            whole = [["a", [[start, start + nn - 1, 1, 0]]]]
+            for r in (None, start + 3):
+                check_revcomp(ctx, seqv, start, whole, r)
+            for i in range(nn):
+                locs = [[start + i, start + i, 1, 0]]
+                check_findex(ctx, seqv, start, locs, "get")
+            check_findex(ctx, seqv, start, whole[0][1], "get")
+            # set: the written value runs through complement too; write every letter once
+            x = mk_x(seqv, start, whole)
+            val = seqv[::-1] if set(seqv) <= set("ACGT") else ALL_LETTERS[3:] + ALL_LETTERS[:3]
+            ctx.ev(1, 1)
+            ctx.count("accepted")
+            exp = m_feature_set(seqv, start, [tuple(whole[0][1][0])], val)
+            x[mk_feature("a", whole[0][1])] = mk_seq(val)
+            if sstr(x.sequence) != exp or sstr(x[mk_feature("a", whole[0][1])]) != val:
+                ctx.violation("AnnotatedSequence.__setitem__(Feature)|wrong_bases_written|reverse_single_loc+all_letters",
+                              "reverse-strand assignment of every letter of the alphabet", {"kind": "all_letters_set",
+                              "seq": seqv, "start": start, "value": val}, exp, sstr(x.sequence))
+    ctx.sample({"kind": "revcomp", "seq": ALL_LETTERS, "start": 5, "feats": whole, "rstart": 8})
+
+
+def derived_model(seq, start, feats, op):
+    """Model content of op1(x) -> (seq, start, acceptable canonical annotations)."""
+    n = len(seq)
+    if op[0] == "slice":
+        a, b = op[1], op[2]
+        A0 = a if a is not None else start
+        B0 = b if b is not None else start + n
+        ok = {m_slice_feats(feats, A, B) for A in ([a] if a is not None else [None, start])
+              for B in ([b] if b is not None else [None, start + n])}
+        return seq[A0 - start:B0 - start], A0, ok
+    if op[0] == "rc":
+        es, est, ef = m_revcomp(seq, start, [(k, [tuple(l) for l in locs]) for k, locs in feats], 1 if op[1] is None else op[1])
+        return es, est, {m_canon(ef)}
+    return seq, start, {m_canon(feats)}
+
+
+def check_derived(ctx, seq, start, feats, op):
+    """E: every operation of the property on an object the library handed out (slice / reverse complement /
+    copy of x): all slices, single + double reverse complement, copy + independence, feature get / set with the
+    derived object's own features, integer index; the derived features and containers as constructor input."""
+    bs = _bt()["bs"]
+    seq_y, start_y, ok = derived_model(seq, start, feats, op)
+    y = apply_op1(mk_x(seq, start, feats), op)
+    oy = obs_x(y)
+    if oy[:2] != (seq_y, start_y) or oy[2] not in ok:
+        ctx.count("skipped_derived_object_differs_from_model")  # reported by the base families
+        return False
+    feats_y = [[k, sorted(list(l) for l in locs)] for k, locs, _q in sorted(oy[2], key=repr)]
+    t = _Tag(ctx, {"derived": {"seq": seq, "start": start, "feats": feats, "op": op}}, "derived_by_" + op[0])
+    _DERIVE[0] = (seq, start, feats, op)
+    try:
+        run_aseq_one(t, seq_y, start_y, feats_y, aseq_slices(len(seq_y), start_y))
+        check_copy(t, seq_y, start_y, feats_y)
+        for r in (None, start_y + 3):
+            check_revcomp(t, seq_y, start_y, feats_y, r)
+        if len(feats_y) == 1:
+            locs_y = feats_y[0][1]
+            tl = [tuple(l) for l in locs_y]
+            if feats_y[0][0] == "a" and all(l[0] >= start_y and l[1] < start_y + len(seq_y) for l in tl):
+                check_findex(t, seq_y, start_y, locs_y, "get")
+                check_findex(t, seq_y, start_y, locs_y, "set")
+    except _DerivedMismatch:
+        ctx.count("skipped_derived_object_differs_from_model")
+        return False
+    finally:
+        _DERIVE[0] = None
+    # the derived object's own Feature / Location objects and containers as inputs
+    ctx.ev(1, 1)
+    ctx.count("accepted")
+    case = {"kind": "derived", "seq": seq, "start": start, "feats": feats, "op": op}
+    for p_ in range(start_y, start_y + len(seq_y)):
+        if y[p_] != seq_y[p_ - start_y]:
+            ctx.violation("AnnotatedSequence.__getitem__(int)|wrong_symbol|derived_by_" + op[0],
+                          "integer index on a derived object", dict(case, p=p_), seq_y[p_ - start_y], y[p_])
+            return True
+    for f in y.annotation:
+        of = obs_feature(f)
+        tl = sorted(of[1])
+        g = bs.Feature(f.key, f.locs, f.qual)
+        if not (g == f) or hash(g) != hash(f):
+            ctx.violation("Feature.__init__|rebuilt_from_own_parts_differs|derived_by_" + op[0],
+                          "Feature(f.key, f.locs, f.qual) != f for a feature handed out by the library", case, None, None)
+            return True
+        if all(l[0] >= start_y and l[1] < start_y + len(seq_y) for l in tl):
+            klass, acc = m_feature_get(seq_y, start_y, tl)
+            if klass == "accept" and sstr(y[f]) not in acc:
+                ctx.violation("AnnotatedSequence.__getitem__(Feature)|wrong_sequence|%s+derived_feature_object" % floc_class(tl),
+                              "index with a Feature object taken from the derived annotation", case, sorted(acc), sstr(y[f]))
+                return True
+    for nm, an in (("get_features", bs.Annotation(y.annotation.get_features())), ("iter", bs.Annotation(iter(y.annotation))),
+                   ("add", bs.Annotation() + y.annotation)):
+        if obs_annot(an) != oy[2] or not (an == y.annotation):
+            ctx.violation("Annotation.__init__|wrong_content|derived_%s" % nm,
+                          "annotation rebuilt from a derived annotation's features differs", case, show(oy[2]), show(obs_annot(an)))
+            return True
+    ctx.outcome(("derived", oy))
+    return False
+
+
+def run_dim_derived(shard, ctx, p):
+    start = shard["start"]
+    n = 4
+    seq = seq_for(p["letters"], n)
+    ops = [["slice", start + 1, start + 3], ["slice", start + 1, None], ["slice", None, start + 3], ["slice", None, None],
+           ["rc", None], ["rc", start + 3], ["copy"]]
+    single = locs_over(start - 1, start + n, [0, BIT["BEYOND_RIGHT"]], (start, start + n - 1))
+    plain = locs_over(start, start + n - 1, [0])
+    spaces = [[["a", [l]]] for l in single]
+    spaces += [[["a", pr]] for pr in pairs([l for l in plain if l[0] == start], plain) if pr[0][2] == pr[1][2]]
+    spaces += [[["a", [single[0]]], ["b", [l]]] for l in single[:12]]
+    for feats in spaces:
+        for op in ops:
+            check_derived(ctx, seq, start, feats, op)
+    ctx.sample({"kind": "derived", "seq": seq, "start": start, "feats": feats, "op": ops[1]})
+
+
+# ---------------------------------------------------------------------------
 # replay
 # ---------------------------------------------------------------------------
 def replay(case, ctx):
     if isinstance(case, str):
         case = json.loads(case)
+    if isinstance(case, dict) and case.get("derived"):
+        d = case["derived"]
+        _DERIVE[0] = (d["seq"], d["start"], d["feats"], d["op"])
+        try:
+            c2 = {k: v for k, v in case.items() if k != "derived"}
+            _replay(c2, _Tag(ctx, {"derived": d}, "derived_by_" + d["op"][0]))
+        except _DerivedMismatch:
+            pass
+        finally:
+            _DERIVE[0] = None
+        return
     if isinstance(case, dict) and (case.get("flavour") or case.get("int")):
         # a case of a dimension family: same check, other flavour of sequence / integers
         fl, it = case.get("flavour"), case.get("int")
@@ -2093,6 +2403,12 @@ def _replay(case, ctx):
         check_annotation_history(ctx, case["seq"], case["start"], case["fl"])
     elif k == "alias":
         check_aliasing(ctx, case["seq"], case["start"], case["locs"])
+    elif k == "result_identity":
+        check_result_identity(ctx, case["seq"], case["start"], case["feats"])
+    elif k == "derived":
+        check_derived(ctx, case["seq"], case["start"], case["feats"], case["op"])
+    elif k == "all_letters_set":
+        run_dim_values(ctx, pal(ctx.seed))
     elif k in ("empty_feature", "bad_location"):
         run_dim_empty(ctx, pal(ctx.seed))
     elif k == "values_int":
